@@ -422,8 +422,8 @@ func allKinds() []*wkind {
 			}
 		}},
 	}
-	ks = append(ks, &wkind{name: "*[]interface{}", mk: mkIS, probes: []string{"0", "5", "6", "7", "length"}, alpha: isAlpha(isGo), depthQ: 3, depthT: 4})
-	ks = append(ks, &wkind{name: "[]interface{}-by-value", mk: mkIS, byValue: true, probes: []string{"0", "5", "6", "7", "length"}, alpha: isAlpha(isGo[:2]), depthQ: 3, depthT: 4})
+	ks = append(ks, &wkind{name: "*[]interface{}", mk: mkIS, probes: []string{"0", "5", "6", "7", "length"}, alpha: isAlpha(isGo), depthQ: 2, depthT: 3})
+	ks = append(ks, &wkind{name: "[]interface{}-by-value", mk: mkIS, byValue: true, probes: []string{"0", "5", "6", "7", "length"}, alpha: isAlpha(isGo[:2]), depthQ: 2, depthT: 3})
 	ks = append(ks, &wkind{name: "map[string]interface{}", mk: func() interface{} {
 		return ptr(map[string]interface{}{"n": int64(1), "s": In{2}, "p": &In{3}, "l": sliceWithSpare[interface{}](int64(4)), "m": map[string]interface{}{"k": int64(5)}, "z": nil})
 	}, byValue: true, probes: []string{"n", "s", "p", "l", "m", "z", "q"},
@@ -431,7 +431,7 @@ func allKinds() []*wkind {
 			takes: []int{0}, reads: true, dels: true, vals: []valDef{val7, valNull, litIn, valH0, valW}, defVals: []valDef{val7},
 			goOps: []goOp{{"m[n]=9", "map-replace", func(h reflect.Value) { (*hostOf[map[string]interface{}](h))["n"] = int64(9) }},
 				{"delete(m,s)", "map-delete", func(h reflect.Value) { delete(*hostOf[map[string]interface{}](h), "s") }}}},
-		depthQ: 3, depthT: 4})
+		depthQ: 2, depthT: 3})
 
 	// ---- nested combinations -----------------------------------------------------------------------
 	ks = append(ks, &wkind{name: "*struct{[]struct}", mk: func() interface{} { return &SL{sliceWithSpare(S{3, "c", In{30}}, S{1, "a", In{10}})} },
